@@ -9,6 +9,7 @@ for d in mutants/${1:-}*/; do
   m=$(basename "$d"); p=${m%%-*}
   out=$(./check "$p" quick --mutant "$m" 2>&1); e=$?
   n=$(grep -c '^VIOLATION' <<<"$out")
+  rm -f ".build/harness-$m" # 35 MB per mutant binary
   if [ -f "mutants/$m/expect_drift" ]; then
     # a mutant inside what the statement leaves open: the layer-2 reference model must report drift, the clauses nothing
     dr=$(jq '[.coverage | to_entries[] | select(.key|test("model_drift")) | .value | numbers] | add // 0' ".build/mutant-$m/evidence/$p.json" 2>/dev/null)
